@@ -84,6 +84,21 @@ func (c Case) lowers(feature string, year int) bool {
 	return false
 }
 
+var noted = map[string]bool{}
+
+func noteOnce(msg string) {
+	// label numbers vary between generated programs
+	key := msg
+	if i := strings.Index(key, "label \""); i >= 0 {
+		key = key[:i+6]
+		msg = key + "…\" (stacked labels `a: b: for (…) { continue a }`)"
+	}
+	if !noted[key] && len(noted) < 20 {
+		noted[key] = true
+		H.Note("%s", msg)
+	}
+}
+
 func hasBigInt(code string) bool {
 	toks, err := jsref.Tokenize(code, jsref.Options{})
 	if err != nil {
@@ -101,6 +116,11 @@ func judge(c Case) vdrv.Verdict { return judgeDepth(c, 0) }
 
 // judgeDepth: depth > 0 marks the recursive judgement of a rewritten input (see classify in known_test.go).
 func judgeDepth(c Case, depth int) vdrv.Verdict {
+	if c.lowers("async-await", 2017) && (!c.lowers("for-await", 2018) || !c.lowers("async-generator", 2018)) {
+		// `supported: {for-await: true}` on a target without async functions describes no engine: esbuild keeps
+		// `for await` / `async function*` as told and turns the enclosing async function into a generator
+		return vdrv.Skip("contradictory-supported-override")
+	}
 	ref, err := W.Script(c.Code, false)
 	if err != nil {
 		return vdrv.Skip("node-infra")
@@ -120,8 +140,10 @@ func judgeDepth(c Case, depth int) vdrv.Verdict {
 		// "if esbuild reports no error then …": a refusal for the target is an accepted outcome
 		v := vdrv.Pass(false, "esbuild-refused")
 		if len(plain.Errors) > 0 {
-			// refused without any lowering as well: outside this property (C13's domain), but worth a class
+			// refused without any lowering as well: outside this property (valid input rejected is C13's
+			// domain), but worth a class and a note
 			v = vdrv.Pass(false, "esbuild-refused-for-every-target")
+			noteOnce("esbuild refuses this input for every target (not a C05 verdict): " + plain.Errors[0].Text)
 		}
 		v.Observed = r.Errors[0].Text
 		return v
@@ -152,6 +174,7 @@ func judgeDepth(c Case, depth int) vdrv.Verdict {
 		return v
 	}
 	v := vdrv.Fail(fmt.Sprintf("lowered program (target=%s unsupported=%v supported=%v minify=%v) behaves differently", c.Target, c.Unsupported, c.Supported, c.Minify), ref.Trace(), got.Trace()+"\n--- output\n"+out)
+	v.Classes = cls // failing and known cases show up in the class histogram too
 	// findings confirmed by an output repair or an input rewrite (precise) come first, the older static
 	// signatures after them
 	if id := classify(c, out, ref.Trace(), got.Trace(), depth); id != "" {
@@ -366,10 +389,21 @@ func runProg(t *testing.T) {
 	})
 }
 
-// drawConfigUniform: like drawConfig but with unbiased draws (every target and override equally likely).
+// preferredTargets: the targets for which the constructs of a generator are actually lowered; drawn 3 times
+// out of 4 (the remaining draws are uniform over all targets, where most programs are left alone).
+var preferredTargets = map[string][]string{
+	"cls":  {"es2015", "es2016", "es2017", "es2018", "es2019", "es2020", "es2021"},
+	"pat":  {"es2015", "es2016", "es2017"},
+	"loop": {"es2015", "es2016", "es2017"},
+}
+
+// drawConfigUniform: like drawConfig but with unbiased draws.
 func drawConfigUniform(g *gen, c *Case) {
 	feats := usable()
 	c.Target = targetNames[g.n("target", len(targetNames))]
+	if pref := preferredTargets[c.Source]; len(pref) > 0 && g.chance("preferred", 75) {
+		c.Target = pref[g.n("preftarget", len(pref))]
+	}
 	switch g.n("overrides", 5) {
 	case 0:
 		n := 1 + g.n("nunsupported", 3)
